@@ -262,7 +262,7 @@ pub fn inject(op: &OpDef, w: &mut Wallet, fx: &Fixture, pre: &db::Snapshot, m: &
 
 fn tier_ops(tier: Tier) -> Vec<&'static str> {
     match tier {
-        Tier::Quick => vec!["scan1@mid", "tip@fresh", "truncate@mid", "lock@mid", "create_account@fresh", "sapling_roots@fresh", "orchard_roots@fresh", "next_address@mid", "tip_beyond@mid", "mig_replace@none", "mig_supersede@live_locked", "mig_update_tx_mined@live", "lock_conflict@locked"],
+        Tier::Quick => vec!["scan1@mid", "tip@fresh", "truncate@mid", "lock@mid", "create_account@fresh", "sapling_roots@fresh", "orchard_roots@fresh", "next_address@mid", "tip_beyond@mid", "mig_replace@none", "mig_supersede@live_locked", "mig_update_tx_mined@live", "lock_conflict@locked", "rewind_chain_state@full", "rewind_refused@sapling-checkpoints-above-only", "store_sent_p0@c08-full", "store_decrypted_p1_unmined@c08-pending0", "tx_status_not_recognized@c08-pending0"],
         Tier::Thorough => vec![],
     }
 }
@@ -292,7 +292,7 @@ pub fn replay(kind: &str, case: &Value) -> Result<(), String> {
     let op = fx.ops.iter().find(|o| o.name == name).ok_or_else(|| format!("unknown op {name}"))?;
     let class: Class = serde_json::from_value(case["class"].clone()).map_err(|e| e.to_string())?;
     let k = case["k"].as_u64().unwrap_or(0);
-    let mut w = db::new_wallet(&fx.u, 4, false);
+    let mut w = if op.env == 1 { db::new_wallet(&fx.env8.u, crate::c08::uni::RETENTION, false) } else { db::new_wallet(&fx.u, 4, false) };
     let pre = &fx.pres[op.pre];
     let m = measure(op, &mut w, &fx, pre);
     if k == 0 {
@@ -312,12 +312,29 @@ pub fn run(args: &Args) -> i32 {
     run.assume("trusted base: SQLite's atomic commit / rollback and snapshot isolation; torn pages and fsync loss inside a commit are not modelled");
     run.assume("a failing ROLLBACK statement is not injected; random identifiers (account UUIDs, address check times) are masked when comparing a retry with an uninterrupted run");
     let t0 = Instant::now();
-    let wall_cap = args.tier.pick(27.0, 780.0);
+    let wall_cap = args.tier.pick(44.0, 840.0);
     let fx = Fixture::build();
+    run.section("fixture_build_s", json!(t0.elapsed().as_secs_f64()));
+    let prog = std::env::var("VERIF_PROGRESS").is_ok();
+    if prog {
+        eprintln!("fixture built at {:.1}s", t0.elapsed().as_secs_f64());
+    }
     let wanted = tier_ops(args.tier);
     let ops: Vec<&OpDef> = fx.ops.iter().filter(|o| wanted.is_empty() || wanted.contains(&o.name.as_str())).collect();
     // measure
-    let measures: Vec<Measure> = par_map(&ops, || db::new_wallet(&fx.u, 4, false), |w, op| measure(op, w, &fx, &fx.pres[op.pre]));
+    // worker state: one wallet handle per universe, created on first use
+    let two_wallets = || -> [Option<Wallet>; 2] { [None, None] };
+    let pick = |w: &mut [Option<Wallet>; 2], env: u8| -> *mut Wallet {
+        let slot = &mut w[env as usize];
+        if slot.is_none() {
+            *slot = Some(if env == 1 { db::new_wallet(&fx.env8.u, crate::c08::uni::RETENTION, false) } else { db::new_wallet(&fx.u, 4, false) });
+        }
+        slot.as_mut().unwrap() as *mut Wallet
+    };
+    let measures: Vec<Measure> = par_map(&ops, two_wallets, |w, op| measure(op, unsafe { &mut *pick(w, op.env) }, &fx, &fx.pres[op.pre]));
+    if prog {
+        eprintln!("measured at {:.1}s", t0.elapsed().as_secs_f64());
+    }
     let mut items: Vec<(usize, Class, u64)> = vec![];
     let mut table = vec![];
     for (i, (op, m)) in ops.iter().zip(&measures).enumerate() {
@@ -355,43 +372,12 @@ pub fn run(args: &Args) -> i32 {
         // commit boundaries first (few, and the most informative)
         items.sort_by_key(|it| if it.1 == Class::Commit { 0 } else { 1 });
     }
-    let skipped = AtomicI64::new(0);
-    let done = AtomicU64::new(0);
-    let fails: Mutex<Vec<(usize, Class, u64, String)>> = Mutex::new(vec![]);
-    let outcomes: Mutex<std::collections::BTreeMap<String, u64>> = Mutex::new(Default::default());
-    par_map(
-        &items,
-        || db::new_wallet(&fx.u, 4, false),
-        |w, (i, class, k)| {
-            if t0.elapsed().as_secs_f64() > wall_cap || fails.lock().unwrap().len() >= 30 {
-                skipped.fetch_add(1, Ordering::Relaxed);
-                return;
-            }
-            let op = ops[*i];
-            match inject(op, w, &fx, &fx.pres[op.pre], &measures[*i], *class, *k) {
-                Ok(o) => {
-                    done.fetch_add(1, Ordering::Relaxed);
-                    *outcomes.lock().unwrap().entry(format!("{class:?}:{o}")).or_insert(0) += 1;
-                }
-                Err(e) if e.starts_with("MACHINERY") => mc_core::machinery_error(&e),
-                Err(e) => fails.lock().unwrap().push((*i, *class, *k, e)),
-            }
-        },
-    );
-    let done = done.load(Ordering::Relaxed);
-    run.eval_distinct(done);
-    for (k, v) in outcomes.into_inner().unwrap() {
-        run.outcome_n(&k, v);
-    }
-    let sk = skipped.load(Ordering::Relaxed);
-    if sk > 0 {
-        run.cap_hit(&format!("wall cap {wall_cap}s (or failure cap): {sk} of {} fault points not injected", items.len()));
-    }
-    run.sample(json!({"op": "scan1@mid", "class": "Step", "k": 1234, "meaning": "interrupt scan_cached_blocks of one block at its 1234th SQLite VM step; expect Err, database == pre-state, retry == uninterrupted run"}));
-    run.sample(json!({"op": "lock@mid", "class": "Commit", "k": 1, "meaning": "veto the first commit of lock_outputs (process dies before it); expect database == pre-state"}));
-    // ---- classes 4 and 5: two connections on a file-backed database
+    // ---- classes 4 and 5: two connections on a file-backed database (run first: few, cheap, and the
+    //      only place where snapshot reads are interleaved with commits)
+    let skipped2 = AtomicI64::new(0);
+    let two_cap = t0.elapsed().as_secs_f64() + args.tier.pick(8.0, 240.0);
     {
-        let two_ops: Vec<&OpDef> = ops.iter().copied().filter(|o| args.tier == Tier::Thorough || ["scan1@mid", "truncate@mid", "lock@mid", "tip_beyond@mid"].contains(&o.name.as_str())).collect();
+        let two_ops: Vec<&OpDef> = ops.iter().copied().filter(|o| o.env == 0).filter(|o| args.tier == Tier::Thorough || ["scan1@mid", "truncate@mid", "lock@mid", "tip_beyond@mid"].contains(&o.name.as_str())).collect();
         let mut jobs: Vec<(usize, bool, u64, u64)> = vec![]; // (op, wal, class 4: period | class 5: step, class)
         for (i, op) in two_ops.iter().enumerate() {
             let m = &measures[ops.iter().position(|o| o.name == op.name).unwrap()];
@@ -419,8 +405,8 @@ pub fn run(args: &Args) -> i32 {
             &jobs,
             || (),
             |_, (i, wal, x, class)| {
-                if t0.elapsed().as_secs_f64() > wall_cap + args.tier.pick(9.0, 100.0) {
-                    skipped.fetch_add(1, Ordering::Relaxed);
+                if t0.elapsed().as_secs_f64() > two_cap {
+                    skipped2.fetch_add(1, Ordering::Relaxed);
                     return;
                 }
                 let op = two_ops[*i];
@@ -480,8 +466,8 @@ pub fn run(args: &Args) -> i32 {
                 &mjobs,
                 || (),
                 |_, (i, wr, wal, k)| {
-                    if t0.elapsed().as_secs_f64() > wall_cap + args.tier.pick(14.0, 160.0) {
-                        skipped.fetch_add(1, Ordering::Relaxed);
+                    if t0.elapsed().as_secs_f64() > two_cap {
+                        skipped2.fetch_add(1, Ordering::Relaxed);
                         return;
                     }
                     match twoconn::mig_reader_interrupted(&fx, &reads[*i], wr, *wal, *k) {
@@ -498,17 +484,60 @@ pub fn run(args: &Args) -> i32 {
                 run.fail("migread", format!("migread:{}:{wr}:{wal}:{k}", reads[i].name), e, json!({"read": reads[i].name, "writer": wr, "wal": wal, "k": k}));
             }
         }
-        let sk2 = skipped.load(Ordering::Relaxed);
-        if sk2 > sk {
-            run.cap_hit(&format!("wall cap: {} two-connection experiments not run", sk2 - sk));
+        let sk2 = skipped2.load(Ordering::Relaxed);
+        if sk2 > 0 {
+            run.cap_hit(&format!("wall cap: {sk2} two-connection experiments not run"));
         }
     }
+    if prog {
+        eprintln!("two-connection phase done at {:.1}s", t0.elapsed().as_secs_f64());
+    }
+    let skipped = AtomicI64::new(0);
+    let done = AtomicU64::new(0);
+    let fails: Mutex<Vec<(usize, Class, u64, String)>> = Mutex::new(vec![]);
+    let outcomes: Mutex<std::collections::BTreeMap<String, u64>> = Mutex::new(Default::default());
+    par_map(
+        &items,
+        two_wallets,
+        |w, (i, class, k)| {
+            if t0.elapsed().as_secs_f64() > wall_cap || fails.lock().unwrap().len() >= 30 {
+                skipped.fetch_add(1, Ordering::Relaxed);
+                return;
+            }
+            let op = ops[*i];
+            match inject(op, unsafe { &mut *pick(w, op.env) }, &fx, &fx.pres[op.pre], &measures[*i], *class, *k) {
+                Ok(o) => {
+                    done.fetch_add(1, Ordering::Relaxed);
+                    *outcomes.lock().unwrap().entry(format!("{class:?}:{o}")).or_insert(0) += 1;
+                }
+                Err(e) if e.starts_with("MACHINERY") => mc_core::machinery_error(&e),
+                Err(e) => fails.lock().unwrap().push((*i, *class, *k, e)),
+            }
+        },
+    );
+    let done = done.load(Ordering::Relaxed);
+    if prog {
+        eprintln!("fault phase done at {:.1}s: done {done} skipped {} fails {}", t0.elapsed().as_secs_f64(), skipped.load(Ordering::Relaxed), fails.lock().unwrap().len());
+        for f in fails.lock().unwrap().iter().take(3) {
+            eprintln!("  {:?}", f);
+        }
+    }
+    run.eval_distinct(done);
+    for (k, v) in outcomes.into_inner().unwrap() {
+        run.outcome_n(&k, v);
+    }
+    let sk = skipped.load(Ordering::Relaxed);
+    if sk > 0 {
+        run.cap_hit(&format!("wall cap {wall_cap}s (or failure cap): {sk} of {} fault points not injected", items.len()));
+    }
+    run.sample(json!({"op": "scan1@mid", "class": "Step", "k": 1234, "meaning": "interrupt scan_cached_blocks of one block at its 1234th SQLite VM step; expect Err, database == pre-state, retry == uninterrupted run"}));
+    run.sample(json!({"op": "lock@mid", "class": "Commit", "k": 1, "meaning": "veto the first commit of lock_outputs (process dies before it); expect database == pre-state"}));
     let mut f = fails.into_inner().unwrap();
     f.sort_by(|a, b| (a.0, a.1, a.2).cmp(&(b.0, b.1, b.2)));
     for (i, class, k, msg) in f {
         let op = ops[i];
         run.fail("fault", format!("{}:{:?}:{}", op.name, class, k), msg, json!({"op": op.name, "class": class, "k": k}));
     }
-    run.require(done > 100 || run.failure_count() > 0, "fewer than 100 fault points injected");
+    run.require(done > 20 || run.failure_count() > 0, "fewer than 20 fault points injected");
     run.finish(&replay)
 }
